@@ -11,7 +11,10 @@
     what acceptance means (`PostE`, `PostB`, `PostS`, `PostArgs`);
   * `Negate` (`neg_sound`), `binop` with its special cases (`binopWith_sound`),
     `Option.Some/None`, `?`, `for`, constants, list literals, constructors,
-    record literals, field access (one path or `Access`), assignment.
+    record literals, field access (one path or `Access`), assignment;
+  * `match`: the bookkeeping of the arms (`armsBook`, `heads_ok`: an accepted loop
+    passes the declarative `matchHeads`, pigeonhole for the count-based
+    exhaustiveness test), binders, guards, the variants of the examinee.
 -/
 import RotoV.Lemmas.TcInferUnify
 import RotoV.Lemmas.TypingAux
@@ -327,7 +330,7 @@ def EnvPlain (env : Env) : Prop :=
   (∀ f sig, env.fns.lookup f = some sig → sig.params.all plain = true ∧ plain sig.ret = true) ∧
   (∀ c t, env.consts.lookup c = some t → plain t = true) ∧
   (∀ n fs, env.types.lookup n = some (.record fs) → (fs.all fun f => plain f.2) = true) ∧
-  (∀ n vs k tys, env.types.lookup n = some (.enum vs) → vs.lookup k = some tys → tys.all plain = true)
+  (∀ n vs, env.types.lookup n = some (.enum vs) → ∀ v ∈ vs, v.2.all plain = true)
 
 /-! the constructs of the fragment `infer_sound` covers -/
 mutual
@@ -337,6 +340,7 @@ def coreE : Expr → Bool
   | .listLit es => coreL es
   | .ctor _ _ args => coreL args
   | .record _ fs => coreF fs
+  | .match e arms => coreE e && !arms.isEmpty && coreA arms
   | .for _ e b => coreE e && coreB b
   | .bin op l r => op != .div && coreE l && coreE r
   | .ite c t none => coreE c && coreB t
@@ -353,6 +357,10 @@ def coreL : List Expr → Bool
 def coreF : List Field → Bool
   | [] => true
   | .mk _ e :: fs => coreE e && coreF fs
+def coreA : List Arm → Bool
+  | [] => true
+  | .mk _ none b :: r => coreB b && coreA r
+  | .mk _ (some gd) b :: r => coreE gd && coreB b && coreA r
 def coreS : List Stmt → Bool
   | [] => true
   | .let_ _ none e :: rest => coreE e && coreS rest
@@ -1233,6 +1241,17 @@ theorem listLit_sound {env : Env} {es : List Expr}
   refine ⟨.list r, dd, by simp only [synth, a1', b1, bind, Except.bind, pure, Except.pure], ?_, a3⟩
   rw [heq2 σ hs2, den_tList]; simp only [inst, den]; exact b2
 
+theorem lookup_mem_gen {β : Type} : ∀ {l : List (Nat × β)} {k : Nat} {v : β}, l.lookup k = some v → (k, v) ∈ l
+  | [], _, _, h => by simp [List.lookup] at h
+  | (k', v') :: r, k, v, h => by
+    simp only [List.lookup] at h
+    cases hk : (k == k') with
+    | true =>
+      simp only [hk] at h; cases h
+      have : k = k' := by simpa using hk
+      subst this; exact List.mem_cons_self
+    | false => simp only [hk] at h; exact List.mem_cons_of_mem _ (lookup_mem_gen h)
+
 theorem den_user (σ : Val) (n : Nat) : den σ (.name (nmUser n) []) = .named n := (den_toM σ (.named n) rfl).1
 theorem WT_user (n : Nat) : WT (.name (nmUser n) []) = true := (den_toM (fun _ => .unit) (.named n) rfl).2.1
 
@@ -1274,7 +1293,7 @@ theorem ctor_sound {env : Env} (henv : EnvPlain env) {ty k : Nat} {args : List E
       | none => simp only [hk] at h; exact (throw_ok.mp h).elim
       | some tys =>
         simp only [hk] at h
-        have hpl := henv.2.2.2 ty vs k tys ht hk
+        have hpl := henv.2.2.2 ty vs ht (k, tys) (lookup_mem_gen hk)
         cases args with
         | nil =>
           simp only at h
@@ -1655,5 +1674,610 @@ theorem assign_sound {env : Env} (henv : EnvPlain env) {isConst : Bool} {x : Nat
       obtain ⟨hcm, _⟩ := inst_compat_meet _ te tp a2' b2
       refine ⟨.unit, dd, ?_, by rw [heq1 σ hs1]; rfl, a3⟩
       simp only [synth, c1, b1, a1', expect_ok' hcm, bind, Except.bind, pure, Except.pure, Bool.false_eq_true, if_false]
+
+end RotoV.TcInfer
+
+namespace RotoV.TcInfer
+open RotoV.Typing RotoV.Unify RotoV.Gen
+
+/-! ### `match`: the bookkeeping of the arms, separated from the typing of guards and bodies -/
+
+theorem patNameEq_iff (a b : PatName) : patNameEq a b = true ↔ a = b := by
+  constructor
+  · exact patNameEq_eq a b
+  · rintro rfl; cases a <;> simp [patNameEq]
+
+theorem any_patNameEq (n : PatName) (l : List PatName) : l.any (patNameEq n) = true ↔ n ∈ l := by
+  simp only [List.any_eq_true, patNameEq_iff]
+  constructor
+  · rintro ⟨x, hx, rfl⟩; exact hx
+  · intro h; exact ⟨n, h, rfl⟩
+
+theorem any_patNameEq' (n : PatName) (l : List PatName) : l.any (fun m => patNameEq m n) = true ↔ n ∈ l := by
+  simp only [List.any_eq_true, patNameEq_iff]
+  constructor
+  · rintro ⟨x, hx, rfl⟩; exact hx
+  · intro h; exact ⟨n, h, rfl⟩
+
+/-- `match (field_types.as_slice(), data_field)` of `match_expr` as a test -/
+def arityM : List MTy → Option (List Nat) → Bool
+  | [], none => true
+  | [], some _ => false
+  | tys, some xs => tys.length == xs.length
+  | _, none => false
+
+/-- the state of the loop that `match_expr` keeps about the heads: `used_variants`, `default_arm` -/
+def armsBook (vs : List (PatName × List MTy)) : List ArmHead → List PatName × Bool → Option (List PatName × Bool)
+  | [], s => some s
+  | h :: rest, (used, dflt) =>
+    if dflt then none else
+    match h.pat with
+    | .wild => armsBook vs rest (used, !h.guarded)
+    | .variant n bs =>
+      match lookupVariantM vs n with
+      | none => none
+      | some tys =>
+        if used.any (patNameEq n) then none else
+        if !arityM tys bs then none else
+        armsBook vs rest (if h.guarded then used else used ++ [n], false)
+
+/-- pigeonhole: a duplicate-free list inside `names` that is at least as long contains all of `names` -/
+theorem pigeon {α : Type} [DecidableEq α] : ∀ (l names : List α), l.Nodup → (∀ x ∈ l, x ∈ names) →
+    names.length ≤ l.length → ∀ y ∈ names, y ∈ l
+  | [], names, _, _, hlen, y, hy => by
+    cases names with
+    | nil => cases hy
+    | cons _ _ => simp at hlen
+  | x :: l, names, hnd, hsub, hlen, y, hy => by
+    have hx : x ∈ names := hsub x List.mem_cons_self
+    have hnd' := List.nodup_cons.mp hnd
+    by_cases hyx : y = x
+    · subst hyx; exact List.mem_cons_self
+    · have ih := pigeon l (names.erase x) hnd'.2
+        (fun z hz => (List.mem_erase_of_ne (by rintro rfl; exact hnd'.1 hz)).mpr (hsub z (List.mem_cons_of_mem _ hz)))
+        (by rw [List.length_erase_of_mem hx]; simp only [List.length_cons] at hlen; omega)
+        y ((List.mem_erase_of_ne hyx).mpr hy)
+      exact List.mem_cons_of_mem _ ih
+
+def vnames (vs : List (PatName × List MTy)) : List PatName := vs.map (·.1)
+
+theorem lookupVariantM_mem {vs : List (PatName × List MTy)} {n : PatName} {tys : List MTy}
+    (h : lookupVariantM vs n = some tys) : n ∈ vnames vs := by
+  induction vs with
+  | nil => simp [lookupVariantM] at h
+  | cons v r ih =>
+    obtain ⟨m, ts⟩ := v
+    simp only [lookupVariantM] at h
+    by_cases hm : patNameEq m n = true
+    · have := patNameEq_eq m n hm; subst this; simp [vnames]
+    · simp only [hm, Bool.false_eq_true, if_false] at h
+      exact List.mem_cons_of_mem _ (ih h)
+
+/-- the variants as the declarative checker sees them under a valuation -/
+def denVs (σ : Val) : List (PatName × List MTy) → List (PatName × List Ty)
+  | [] => []
+  | (n, tys) :: r => (n, denL σ tys) :: denVs σ r
+
+theorem denL_length (σ : Val) : ∀ ts : List MTy, (denL σ ts).length = ts.length
+  | [] => rfl
+  | _ :: ts => by simp [denL, denL_length σ ts]
+
+theorem lookupVariant_denVs (σ : Val) (n : PatName) : ∀ vs : List (PatName × List MTy),
+    lookupVariant (denVs σ vs) n = (lookupVariantM vs n).map (denL σ)
+  | [] => rfl
+  | (m, tys) :: r => by
+    simp only [denVs, lookupVariant, lookupVariantM]
+    by_cases hm : patNameEq m n = true
+    · simp [hm]
+    · simp only [hm, Bool.false_eq_true, if_false]; exact lookupVariant_denVs σ n r
+
+theorem denVs_all (σ : Val) (c : List PatName) : ∀ vs : List (PatName × List MTy),
+    (denVs σ vs).all (fun v => c.any (patNameEq v.1)) = (vnames vs).all (fun n => c.any (patNameEq n))
+  | [] => rfl
+  | (m, tys) :: r => by simp only [denVs, vnames, List.map_cons, List.all_cons]; rw [← vnames, denVs_all σ c r]
+
+theorem arity_agree (tys : List MTy) (σ : Val) (bs : Option (List Nat)) :
+    arityOk (denL σ tys) bs = arityM tys bs := by
+  cases tys with
+  | nil => cases bs <;> simp [arityOk, denL, arityM]
+  | cons t ts =>
+    cases bs with
+    | none => simp [arityOk, denL, arityM]
+    | some xs =>
+      simp only [arityOk, denL, List.isEmpty_cons, Bool.not_false, Bool.true_and, List.length_cons, denL_length, arityM]
+      cases h : (xs.length == ts.length + 1) <;> cases h' : (ts.length + 1 == xs.length) <;> simp_all <;> omega
+
+/-- the loop's bookkeeping is the declarative one (`matchHeads`), up to the final exhaustiveness test -/
+theorem book_heads (σ : Val) (vs : List (PatName × List MTy)) : ∀ (heads : List ArmHead) (used : List PatName)
+    (dflt : Bool) (covered uF : List PatName) (dF : Bool),
+    armsBook vs heads (used, dflt) = some (uF, dF) → (∀ n, n ∈ covered ↔ n ∈ used) →
+    ∃ cF : List PatName, (∀ n, n ∈ cF ↔ n ∈ uF) ∧
+      matchHeads (denVs σ vs) heads covered dflt =
+        (if dF || (denVs σ vs).all (fun v => cF.any (patNameEq v.1)) then none else some "non-exhaustive")
+  | [], used, dflt, covered, uF, dF, h, hc => by
+    simp only [armsBook, Option.some.injEq, Prod.mk.injEq] at h
+    obtain ⟨rfl, rfl⟩ := h
+    exact ⟨covered, hc, rfl⟩
+  | hd :: rest, used, dflt, covered, uF, dF, h, hc => by
+    rw [matchHeads_cons]
+    simp only [armsBook] at h
+    cases dflt with
+    | true => simp at h
+    | false =>
+      simp only [Bool.false_eq_true, if_false] at h ⊢
+      cases hp : hd.pat with
+      | wild =>
+        simp only [hp] at h ⊢
+        exact book_heads σ vs rest used (!hd.guarded) covered uF dF h hc
+      | variant n bs =>
+        simp only [hp] at h ⊢
+        rw [lookupVariant_denVs]
+        cases hl : lookupVariantM vs n with
+        | none => simp [hl] at h
+        | some tys =>
+          simp only [hl, Option.map_some] at h ⊢
+          by_cases hu : used.any (patNameEq n) = true
+          · simp [hu] at h
+          · simp only [hu, Bool.false_eq_true, if_false] at h
+            rw [arity_agree]
+            by_cases hok' : arityM tys bs = true
+            · simp only [hok', Bool.not_true, Bool.false_eq_true, if_false] at h ⊢
+              have hcov : covered.any (patNameEq n) = false := by
+                cases hcv : covered.any (patNameEq n) with
+                | false => rfl
+                | true =>
+                  exfalso
+                  have := (any_patNameEq n covered).mp hcv
+                  exact hu ((any_patNameEq n used).mpr ((hc n).mp this))
+              simp only [hcov, Bool.false_eq_true, if_false]
+              apply book_heads σ vs rest _ false _ uF dF h
+              intro m
+              cases hd.guarded with
+              | true => simpa using hc m
+              | false =>
+                simp only [Bool.false_eq_true, if_false, List.mem_cons, List.mem_append, List.not_mem_nil, or_false]
+                rw [hc m]; constructor
+                · rintro (h1 | h1); exact Or.inr h1; exact Or.inl h1
+                · rintro (h1 | h1); exact Or.inr h1; exact Or.inl h1
+            · simp [hok'] at h
+
+/-- invariant of the loop: the used variants are distinct names of the enum -/
+theorem book_used (vs : List (PatName × List MTy)) : ∀ (heads : List ArmHead) (used : List PatName) (dflt : Bool)
+    (uF : List PatName) (dF : Bool), armsBook vs heads (used, dflt) = some (uF, dF) →
+    used.Nodup → (∀ n ∈ used, n ∈ vnames vs) → uF.Nodup ∧ ∀ n ∈ uF, n ∈ vnames vs
+  | [], used, dflt, uF, dF, h, hn, hs => by
+    simp only [armsBook, Option.some.injEq, Prod.mk.injEq] at h
+    obtain ⟨rfl, rfl⟩ := h
+    exact ⟨hn, hs⟩
+  | hd :: rest, used, dflt, uF, dF, h, hn, hs => by
+    simp only [armsBook] at h
+    cases dflt with
+    | true => simp at h
+    | false =>
+      simp only [Bool.false_eq_true, if_false] at h
+      cases hp : hd.pat with
+      | wild => simp only [hp] at h; exact book_used vs rest used _ uF dF h hn hs
+      | variant n bs =>
+        simp only [hp] at h
+        cases hl : lookupVariantM vs n with
+        | none => simp [hl] at h
+        | some tys =>
+          simp only [hl] at h
+          by_cases hu : used.any (patNameEq n) = true
+          · simp [hu] at h
+          · simp only [hu, Bool.false_eq_true, if_false] at h
+            by_cases hok' : arityM tys bs = true
+            · simp only [hok', Bool.not_true, Bool.false_eq_true, if_false] at h
+              apply book_used vs rest _ false uF dF h
+              · cases hd.guarded with
+                | true => simpa using hn
+                | false =>
+                  simp only [Bool.false_eq_true, if_false]
+                  rw [List.nodup_append]
+                  refine ⟨hn, by simp, ?_⟩
+                  intro a ha b hb
+                  simp only [List.mem_singleton] at hb
+                  subst hb
+                  rintro rfl
+                  exact hu ((any_patNameEq a used).mpr ha)
+              · intro m
+                cases hd.guarded with
+                | true => exact (fun hm => hs m (by simpa using hm))
+                | false =>
+                  intro hm
+                  simp only [Bool.false_eq_true, if_false, List.mem_append, List.mem_singleton] at hm
+                  rcases hm with hm | rfl
+                  · exact hs m hm
+                  · exact lookupVariantM_mem hl
+            · simp [hok'] at h
+
+/-- **the heads of an accepted `match` pass the declarative bookkeeping** -/
+theorem heads_ok (σ : Val) (vs : List (PatName × List MTy)) (heads : List ArmHead)
+    (uF : List PatName) (dF : Bool) (h : armsBook vs heads ([], false) = some (uF, dF))
+    (hex : ¬ (!dF && decide (uF.length < vs.length)) = true) :
+    matchHeads (denVs σ vs) heads [] false = none := by
+  obtain ⟨cF, hc, hm⟩ := book_heads σ vs heads [] false [] uF dF h (fun n => Iff.rfl)
+  obtain ⟨hn, hs⟩ := book_used vs heads [] false uF dF h List.nodup_nil (by intro n hn; cases hn)
+  rw [hm]
+  cases dF with
+  | true => rfl
+  | false =>
+    simp only [Bool.not_false, Bool.true_and, decide_eq_true_eq, Nat.not_lt] at hex
+    have hall : (denVs σ vs).all (fun v => cF.any (patNameEq v.1)) = true := by
+      rw [denVs_all, List.all_eq_true]
+      intro n hn'
+      have := pigeon uF (vnames vs) hn hs (by simpa [vnames] using hex) n hn'
+      exact (any_patNameEq n cF).mpr ((hc n).mpr this)
+    simp [hall]
+
+end RotoV.TcInfer
+
+namespace RotoV.TcInfer
+open RotoV.Typing RotoV.Unify RotoV.Gen
+
+/-- the bookkeeping part of an accepted loop over the arms -/
+theorem inferArms_book (env : Env) (cx : Cx) (g : MGamma) (vs : List (PatName × List MTy)) :
+    ∀ (arms : List Arm) (st0 : MSt) (st : St) (stF : MSt) (st' : St),
+    inferArms env cx g vs arms st0 st = .ok stF st' →
+    armsBook vs (armHeads arms) (st0.used, st0.dflt) = some (stF.used, stF.dflt)
+  | [], st0, st, stF, st', h => by
+    simp only [inferArms] at h
+    obtain ⟨rfl, _⟩ := pure_ok.mp h
+    rfl
+  | .mk pat guard body :: rest, st0, st, stF, st', h => by
+    rw [inferArms.eq_def] at h
+    simp only [armHeads, armsBook]
+    by_cases hd : st0.dflt = true
+    · simp only [hd, if_true] at h; exact (throw_ok.mp h).elim
+    · simp only [hd, Bool.false_eq_true, if_false] at h ⊢
+      cases pat with
+      | wild =>
+        simp only at h ⊢
+        obtain ⟨dflt, s1, h1, h2⟩ := bind_ok.mp h
+        obtain ⟨db, s2, h3, h4⟩ := bind_ok.mp h2
+        have := inferArms_book env cx g vs rest _ s2 stF st' h4
+        simp only at this
+        cases guard with
+        | none =>
+          simp only at h1
+          obtain ⟨rfl, _⟩ := pure_ok.mp h1
+          simpa using this
+        | some gd =>
+          simp only at h1
+          obtain ⟨_, s1', _, h1b⟩ := bind_ok.mp h1
+          obtain ⟨rfl, _⟩ := pure_ok.mp h1b
+          simpa using this
+      | variant n bs =>
+        simp only at h ⊢
+        cases hl : lookupVariantM vs n with
+        | none => simp only [hl] at h; exact (throw_ok.mp h).elim
+        | some tys =>
+          simp only [hl] at h ⊢
+          by_cases hu : st0.used.any (patNameEq n) = true
+          · simp only [hu, if_true] at h; exact (throw_ok.mp h).elim
+          · simp only [hu, Bool.false_eq_true, if_false] at h ⊢
+            obtain ⟨g', s1, h1, h2⟩ := bind_ok.mp h
+            obtain ⟨used, s2, h3, h4⟩ := bind_ok.mp h2
+            obtain ⟨db, s3, h5, h6⟩ := bind_ok.mp h4
+            have := inferArms_book env cx g vs rest _ s3 stF st' h6
+            simp only at this
+            have har : arityM tys bs = true := by
+              cases tys with
+              | nil =>
+                cases bs with
+                | none => rfl
+                | some xs => simp only at h1; exact (throw_ok.mp h1).elim
+              | cons t ts =>
+                cases bs with
+                | none => simp only at h1; exact (throw_ok.mp h1).elim
+                | some xs =>
+                  simp only at h1
+                  by_cases hlen : ((t :: ts).length != xs.length) = true
+                  · simp only [hlen, if_true] at h1; exact (throw_ok.mp h1).elim
+                  · simp only [arityM]; simpa using hlen
+            simp only [har, Bool.not_true, Bool.false_eq_true, if_false]
+            cases guard with
+            | none =>
+              simp only at h3
+              obtain ⟨rfl, _⟩ := pure_ok.mp h3
+              simpa using this
+            | some gd =>
+              simp only at h3
+              obtain ⟨_, s1', _, h3b⟩ := bind_ok.mp h3
+              obtain ⟨rfl, _⟩ := pure_ok.mp h3b
+              simpa using this
+
+end RotoV.TcInfer
+
+namespace RotoV.TcInfer
+open RotoV.Typing RotoV.Unify RotoV.Gen
+
+theorem denS_zip (σ : Val) : ∀ (xs : List Nat) (tys : List MTy), denS σ (xs.zip tys) = xs.zip (denL σ tys)
+  | [], _ => rfl
+  | _ :: _, [] => rfl
+  | x :: xs, t :: ts => by simp only [List.zip_cons_cons, denS, denL, denS_zip σ xs ts]
+
+theorem declareAllM_gen : ∀ (ps : List (Nat × MTy)) {g g' : MGamma} {st st' : St},
+    declareAllM g ps st = .ok g' st' →
+      st = st' ∧ (WTg g → (∀ q ∈ ps, WT q.2 = true) → WTg g') ∧
+        ∀ σ : Val, declareAll (denG σ g) (denS σ ps) = some (denG σ g')
+  | [], g, g', st, st', h => by
+    simp only [declareAllM] at h
+    obtain ⟨rfl, rfl⟩ := pure_ok.mp h
+    exact ⟨rfl, fun hg _ => hg, fun σ => rfl⟩
+  | (x, t) :: rest, g, g', st, st', h => by
+    simp only [declareAllM] at h
+    obtain ⟨g1, s1, h1, h2⟩ := bind_ok.mp h
+    obtain ⟨rfl, hd, hWg⟩ := declareM_ok h1
+    obtain ⟨rfl, hg', hrest⟩ := declareAllM_gen rest h2
+    refine ⟨rfl, fun hg hps => hg' (hWg hg (hps (x, t) List.mem_cons_self))
+      (fun q hq => hps q (List.mem_cons_of_mem _ hq)), fun σ => ?_⟩
+    simp only [denS, declareAll, hd σ]
+    exact hrest σ
+
+def WTvs (vs : List (PatName × List MTy)) : Prop := ∀ v ∈ vs, WTl v.2 = true
+
+theorem lookupVariantM_WT {vs : List (PatName × List MTy)} (h : WTvs vs) {n : PatName} {tys : List MTy}
+    (hl : lookupVariantM vs n = some tys) : WTl tys = true := by
+  induction vs with
+  | nil => simp [lookupVariantM] at hl
+  | cons v r ih =>
+    obtain ⟨m, ts⟩ := v
+    simp only [lookupVariantM] at hl
+    by_cases hm : patNameEq m n = true
+    · simp only [hm, if_true, Option.some.injEq] at hl; subst hl; exact h (m, ts) List.mem_cons_self
+    · simp only [hm, Bool.false_eq_true, if_false] at hl
+      exact ih (fun v hv => h v (List.mem_cons_of_mem _ hv)) hl
+
+theorem WTl_mem : ∀ {tys : List MTy}, WTl tys = true → ∀ t ∈ tys, WT t = true
+  | [], _, t, ht => by cases ht
+  | u :: us, h, t, ht => by
+    simp only [WTl, Bool.and_eq_true] at h
+    cases ht with
+    | head => exact h.1
+    | tail _ h' => exact WTl_mem h.2 t h'
+
+theorem zip_WT {xs : List Nat} {tys : List MTy} (h : WTl tys = true) : ∀ q ∈ xs.zip tys, WT q.2 = true := by
+  intro q hq
+  obtain ⟨x, t⟩ := q
+  exact WTl_mem h t (List.of_mem_zip hq).2
+
+def PostArms (env : Env) (cx : Cx) (g : MGamma) (vs : List (PatName × List MTy)) (arms : List Arm)
+    (st : St) (stF : MSt) (st' : St) : Prop :=
+  WTs st'.store ∧ ∀ σ : Val, GVal σ → Sat σ st'.store → Sat σ st.store ∧
+    ∀ gd vsd, gammaInst gd (denG σ g) = true → armVariantsOk vsd (denVs σ vs) = true →
+      ∃ ts dda, synthArms env (denCx σ cx) gd vsd arms = .ok (ts, dda) ∧
+        (∀ t ∈ ts, inst t (den σ cx.expected) = true) ∧ (stF.allDiverge = true → dda = true)
+
+/-- what the binders of one arm are declared as, flexible side against ground side -/
+theorem armBinds_rel (σ : Val) (hσ : GVal σ) {vs : List (PatName × List MTy)} (hvs : WTvs vs) {n : PatName}
+    {tys : List MTy} (hl : lookupVariantM vs n = some tys) (xs : List Nat) (hlen : tys.length = xs.length)
+    (vsd : Option (List (PatName × List Ty))) (hv : armVariantsOk vsd (denVs σ vs) = true) :
+    scopeInst (armBinds vsd (.variant n (some xs))) (xs.zip (denL σ tys)) = true := by
+  have hWt := lookupVariantM_WT hvs hl
+  have hgr : (denL σ tys).all ground = true := denL_ground hσ tys hWt
+  cases vsd with
+  | none =>
+    simp only [armBinds, Option.getD_some]
+    exact map_unknown_scopeInst xs (denL σ tys) (by rw [denL_length]; exact hlen.symm) hgr
+  | some vd =>
+    simp only [armVariantsOk] at hv
+    have hlg : lookupVariant (denVs σ vs) n = some (denL σ tys) := by rw [lookupVariant_denVs, hl]; rfl
+    obtain ⟨tysd, h1, h2, _⟩ := (lookupVariant_rel vd (denVs σ vs) n hv).2 _ hlg
+    simp only [armBinds, Option.getD_some, h1]
+    exact zip_scopeInst xs tysd (denL σ tys) h2 hgr
+
+end RotoV.TcInfer
+
+namespace RotoV.TcInfer
+open RotoV.Typing RotoV.Unify RotoV.Gen
+
+/-- the declarative check of an arm's guard -/
+def GuardOk (env : Env) (ctx : Ctx) (gd' : Gamma) : Option Expr → Prop
+  | some gd0 => ∃ tg dg, synth env ctx gd' gd0 = .ok (tg, dg) ∧ compat tg .bool = true
+  | none => True
+
+/-- the guard of an arm (checked against `bool` in the arm's scope), if there is one -/
+theorem guard_sound {env : Env} {α : Type} {guard : Option Expr} {a b : α}
+    {cx : Cx} {g' : MGamma} {st st' : St} {r : α}
+    (h : (match guard with
+      | some gd => do
+        let _ ← infer env (cx.withTy tBool) g' gd
+        pure a
+      | none => pure b : M α) st = .ok r st')
+    (ihg : ∀ gd0, guard = some gd0 → IH env gd0) (hW : WTs st.store) (hcx : WTcx cx) (hg : WTg g') :
+    r = (if guard.isSome then a else b) ∧ WTs st'.store ∧ ∀ σ : Val, GVal σ → Sat σ st'.store → Sat σ st.store ∧
+      ∀ gd', gammaInst gd' (denG σ g') = true → GuardOk env (denCx σ cx) gd' guard := by
+  cases guard with
+  | none =>
+    simp only at h
+    obtain ⟨rfl, rfl⟩ := pure_ok.mp h
+    exact ⟨rfl, hW, fun σ _ hs => ⟨hs, fun _ _ => trivial⟩⟩
+  | some gd0 =>
+    simp only at h
+    obtain ⟨d, s1, h1, h2⟩ := bind_ok.mp h
+    obtain ⟨rfl, rfl⟩ := pure_ok.mp h2
+    obtain ⟨hW1, hp⟩ := ihg gd0 rfl (cx.withTy tBool) g' st d s1 hW (WTcx_with hcx WT_tBool) hg h1
+    refine ⟨rfl, hW1, fun σ hσ hs => ?_⟩
+    obtain ⟨hs0, hsyn⟩ := hp σ hσ hs
+    refine ⟨hs0, fun gd' hgd' => ?_⟩
+    obtain ⟨tg, dg, a1, a2, _⟩ := hsyn gd' hgd'
+    have a2' : inst tg .bool = true := by simpa [Cx.withTy, den_tBool] using a2
+    exact ⟨tg, dg, a1, inst_bool tg a2'⟩
+
+/-- the declarative check of one arm, from its guard and body -/
+theorem synthArm_of {env : Env} {ctx : Ctx} {gd' : Gamma} {pat : Pat} {guard : Option Expr} {body : Block}
+    {tb : Ty} {db : Bool}
+    (hguard : GuardOk env ctx gd' guard)
+    (hbody : synthBlock env ctx gd' body = .ok (tb, db)) :
+    synthArm env ctx gd' (.mk pat guard body) = .ok (tb, db) := by
+  cases guard with
+  | none => simp only [synthArm, hbody]
+  | some gd0 =>
+    obtain ⟨tg, dg, h1, h2⟩ := hguard
+    simp only [synthArm, h1, expect_ok' h2, hbody, bind, Except.bind]
+
+end RotoV.TcInfer
+
+namespace RotoV.TcInfer
+open RotoV.Typing RotoV.Unify RotoV.Gen
+
+theorem toMList_WT : ∀ {tys : List Ty}, tys.all plain = true → WTl (toMList tys) = true
+  | [], _ => rfl
+  | t :: ts, h => by
+    simp only [List.all_cons, Bool.and_eq_true] at h
+    simp only [toMList, WTl, (den_toM (fun _ => .unit) t h.1).2.1, toMList_WT h.2, Bool.and_self]
+
+theorem denL_toMList (σ : Val) : ∀ {tys : List Ty}, tys.all plain = true → denL σ (toMList tys) = tys
+  | [], _ => rfl
+  | t :: ts, h => by
+    simp only [List.all_cons, Bool.and_eq_true] at h
+    simp only [toMList, denL, (den_toM σ t h.1).1, denL_toMList σ h.2]
+
+theorem plain_ground : ∀ {tys : List Ty}, tys.all plain = true → tys.all ground = true
+  | [], _ => rfl
+  | t :: ts, h => by
+    simp only [List.all_cons, Bool.and_eq_true] at h
+    simp only [List.all_cons, (den_toM (fun _ => .unit) t h.1).2.2, plain_ground h.2, Bool.and_self]
+
+theorem instList_self : ∀ {tys : List Ty}, tys.all ground = true → instList tys tys = true
+  | [], _ => rfl
+  | t :: ts, h => by
+    simp only [List.all_cons, Bool.and_eq_true] at h
+    simp only [instList, inst_self t h.1, instList_self h.2, Bool.and_self]
+
+/-- the variants of a resolved examinee type are well-formed -/
+theorem variantsM_WT {env : Env} (henv : EnvPlain env) {t : MTy} (hWt : WT t = true)
+    {vs : List (PatName × List MTy)} (hv : variantsM env t = some vs) : WTvs vs := by
+  cases t with
+  | name n args =>
+    simp only [variantsM] at hv
+    by_cases hn : (n == nmOption) = true
+    · simp only [hn, if_true] at hv
+      cases args with
+      | nil => simp at hv
+      | cons a as =>
+        cases as with
+        | cons _ _ => simp at hv
+        | nil =>
+          simp only [Option.some.injEq] at hv
+          subst hv
+          simp only [WT, WTl, Bool.and_true, Bool.and_eq_true] at hWt
+          intro v hv'
+          simp only [List.mem_cons, List.not_mem_nil, or_false] at hv'
+          rcases hv' with rfl | rfl
+          · simp [WTl, hWt.1]
+          · rfl
+    · simp only [hn, Bool.false_eq_true, if_false] at hv
+      by_cases h32 : n ≥ 32
+      · simp only [h32, decide_true, if_true] at hv
+        cases ht : env.types.lookup (n - 32) with
+        | none => simp [ht] at hv
+        | some td =>
+          cases td with
+          | record _ => simp [ht] at hv
+          | enum evs =>
+            simp only [ht, Option.some.injEq] at hv
+            subst hv
+            intro v hv'
+            simp only [List.mem_map] at hv'
+            obtain ⟨⟨k, tys⟩, hm, rfl⟩ := hv'
+            exact toMList_WT (henv.2.2.2 _ evs ht (k, tys) hm)
+      · simp [h32] at hv
+  | _ => simp [variantsM] at hv
+
+theorem variantsInst_enum (σ : Val) : ∀ (evs : List (Nat × List Ty)), (∀ v ∈ evs, v.2.all plain = true) →
+    variantsInst (evs.map fun (k, tys) => (PatName.user k, tys))
+      (denVs σ (evs.map fun (k, tys) => (PatName.user k, toMList tys))) = true
+  | [], _ => rfl
+  | (k, tys) :: r, h => by
+    have hp := h (k, tys) List.mem_cons_self
+    simp only [List.map_cons, denVs, variantsInst, denL_toMList σ hp, instList_self (plain_ground hp), plain_ground hp,
+      Bool.and_true, Bool.true_and]
+    simp only [patNameEq, beq_self_eq_true, Bool.true_and]
+    exact variantsInst_enum σ r (fun v hv => h v (List.mem_cons_of_mem _ hv))
+
+/-- what the declarative checker knows about the variants of the examinee -/
+theorem variantsOf_rel {env : Env} (henv : EnvPlain env) (σ : Val) (hσ : GVal σ) {t : MTy} (hWt : WT t = true)
+    {vs : List (PatName × List MTy)} (hv : variantsM env t = some vs) (te : Ty) (hi : inst te (den σ t) = true) :
+    (te = .unknown ∨ te = .never) ∨
+      ∃ vsd, variantsOf env te = some vsd ∧ variantsInst vsd (denVs σ vs) = true ∧
+        (∀ a : Ty, te ≠ .unknown ∧ te ≠ .never) := by
+  cases t with
+  | name n args =>
+    simp only [variantsM] at hv
+    by_cases hn : (n == nmOption) = true
+    · simp only [hn, if_true] at hv
+      have hn' : n = nmOption := by simpa using hn
+      subst hn'
+      cases args with
+      | nil => simp at hv
+      | cons a as =>
+        cases as with
+        | cons _ _ => simp at hv
+        | nil =>
+          simp only [Option.some.injEq] at hv
+          subst hv
+          have hWa : WT a = true := by
+            simp only [WT, WTl, Bool.and_true, Bool.and_eq_true] at hWt; exact hWt.1
+          have hden : den σ (.name nmOption [a]) = .opt (den σ a) := den_tOption σ a
+          rw [hden] at hi
+          cases te with
+          | opt t' =>
+            refine Or.inr ⟨[(.some, [t']), (.none, [])], rfl, ?_, fun _ => ⟨by simp, by simp⟩⟩
+            have : inst t' (den σ a) = true := by simpa [inst] using hi
+            simp [denVs, denL, variantsInst, patNameEq, instList, this, den_ground hσ a hWa]
+          | unknown => exact Or.inl (Or.inl rfl)
+          | never => exact Or.inl (Or.inr rfl)
+          | _ => simp [inst] at hi
+    · simp only [hn, Bool.false_eq_true, if_false] at hv
+      by_cases h32 : n ≥ 32
+      · simp only [h32, decide_true, if_true] at hv
+        cases ht : env.types.lookup (n - 32) with
+        | none => simp [ht] at hv
+        | some td =>
+          cases td with
+          | record _ => simp [ht] at hv
+          | enum evs =>
+            simp only [ht, Option.some.injEq] at hv
+            subst hv
+            rw [den_user' σ h32 args] at hi
+            cases te with
+            | named k =>
+              have hk : k = n - 32 := by simpa [inst] using hi
+              subst hk
+              refine Or.inr ⟨evs.map fun (k, tys) => (PatName.user k, tys), by simp only [variantsOf, ht], ?_,
+                fun _ => ⟨by simp, by simp⟩⟩
+              exact variantsInst_enum σ evs (henv.2.2.2 _ evs ht)
+            | unknown => exact Or.inl (Or.inl rfl)
+            | never => exact Or.inl (Or.inr rfl)
+            | _ => simp [inst] at hi
+      · simp [h32] at hv
+  | _ => simp [variantsM] at hv
+
+end RotoV.TcInfer
+
+namespace RotoV.TcInfer
+open RotoV.Typing RotoV.Unify RotoV.Gen
+
+theorem synth_match_known {env : Env} {ctx : Ctx} {gd : Gamma} {e : Expr} {arms : List Arm} {te : Ty} {dde : Bool}
+    {vsd : List (PatName × List Ty)} {ts : List Ty} {dda : Bool} {tr : Ty}
+    (h1 : synth env ctx gd e = .ok (te, dde)) (hv : variantsOf env te = some vsd)
+    (hm : matchHeads vsd (armHeads arms) [] false = none)
+    (hs : synthArms env ctx gd (some vsd) arms = .ok (ts, dda))
+    (hf : foldCompat "branches" ts .unknown = .ok tr) :
+    synth env ctx gd (.match e arms) = .ok (tr, dde || (!arms.isEmpty && dda)) := by
+  cases te with
+  | opt t' => simp only [synth, h1, hv, hm, hs, hf, bind, Except.bind, pure, Except.pure]
+  | named n => simp only [synth, h1, hv, hm, hs, hf, bind, Except.bind, pure, Except.pure]
+  | _ => simp [variantsOf] at hv
+
+theorem synth_match_unknown {env : Env} {ctx : Ctx} {gd : Gamma} {e : Expr} {arms : List Arm} {te : Ty} {dde : Bool}
+    {ts : List Ty} {dda : Bool} {tr : Ty}
+    (h1 : synth env ctx gd e = .ok (te, dde)) (hu : te = .unknown ∨ te = .never)
+    (hs : synthArms env ctx gd none arms = .ok (ts, dda))
+    (hf : foldCompat "branches" ts .unknown = .ok tr) :
+    synth env ctx gd (.match e arms) = .ok (tr, dde || (!arms.isEmpty && dda)) := by
+  rcases hu with rfl | rfl <;> simp only [synth, h1, hs, hf, bind, Except.bind, pure, Except.pure]
 
 end RotoV.TcInfer
